@@ -398,7 +398,7 @@ def run(ctx):
     ctx.log(f"harness: {len(lines)} observations {dict(legs)}; {errs.get('x86_0', '').strip()} ({time.time()-t0:.0f}s)")
     if len(lines) < 20000:
         raise Broken("the sweep produced almost no observations")
-    rej, unj = tlc_pointwise(ctx, lines, "obs", 6 if q else 6, workers=3)
+    rej, unj = tlc_pointwise(ctx, lines, "obs", max(6, len(lines) // 60000 + 1), workers=3)
     ctx.log(f"TLC judged {len(lines)} observations: {len(rej)} rejected, {len(unj)} not judged ({time.time()-t0:.0f}s)")
     groups = collections.OrderedDict()
     for o, role, idx, exp, got in rej:
@@ -412,7 +412,8 @@ def run(ctx):
     for p, k, role, idx, exp, got in trej:
         P = progs[p - 1]
         c = P["calls"][k - 1] if k <= len(P["calls"]) else {"c": "end"}
-        ln = P["lines"][k - 1] if k <= len(P["lines"]) else {"tx": "", "tk": [], "hx": []}
+        li = c.get("l0", len(P["lines"]))
+        ln = P["lines"][li] if li < len(P["lines"]) else {"tx": "", "tk": [], "hx": [], "cm": ""}
         if c["c"] == "inst":
             o = dict(c, a=P["a"], leg="L", fl=P["fl"], tk=ln["tk"], hx=ln["hx"], tx=ln["tx"], nl=1, cm=ln["cm"])
             key, msg = signature(o, role, idx, exp, got), describe(o, role, idx, exp, got)
